@@ -50,6 +50,13 @@ func rebuildScenarios(seed int64, bi int, o Omni) []*Scenario {
 		}
 		scs = append(scs, lf)
 	}
+	if len(scs) > 0 {
+		// the first configuration as a JSON file with all members of every body on ONE line (own random stream):
+		// what puts the symbols of such a file in order cannot be the line
+		if js := jsonScenarioLines(rand.New(rand.NewSource(subSeed(seed, 888000+bi))), scs[0], false, true); js != nil {
+			scs = append(scs, js)
+		}
+	}
 	return scs
 }
 
